@@ -40,36 +40,66 @@ def random_spd(rng, dim, lo=0.5, hi=2.0):
 
 # --------------------------------------------------------------------------- targets
 class Target:
-    """f(q) = 1/2 q'Aq + sum_i c_i q_i^4/4 + kappa log cosh(w.q)   (linear=True: c = kappa = 0)."""
+    """f(q) = g(Rq),  g(x) = 1/2 x'Ax + sum_i c_i x_i^4/4 + kappa log cosh(w.x)   (linear=True: c = kappa = 0; R = I unless
+    linear == "degenerate": then A, c, w are chosen so that the Hessian of g has a repeated eigenvalue wherever
+    |x_0| == |x_1| while its third derivatives do not vanish there, and R is a random rotation so that the eigenvectors of
+    the degenerate eigenspace are not axis aligned)."""
 
     def __init__(self, dim: int, rng, *, linear: bool = False) -> None:
         self.dim = dim
         self.A, _, _ = random_spd(rng, dim, 0.5, 2.0)
         if linear == "aniso":  # strongly anisotropic Gaussian: scales 1, 0.4, 0.4^2, ...
             self.A = np.diag([1.0 / (0.4**i) ** 2 for i in range(dim)])
-        self.c = np.zeros(dim) if linear else rng.uniform(0.05, 0.5, dim)
-        self.kappa = 0.0 if linear else 1.0
+        self.c = np.zeros(dim) if linear and linear != "degenerate" else rng.uniform(0.05, 0.5, dim)
+        self.kappa = 0.0 if linear and linear != "degenerate" else 1.0
         self.w = rng.standard_normal(dim) * 0.7
+        self.R = None
+        if linear == "degenerate":
+            a = rng.uniform(0.6, 1.8, dim)
+            a[1] = a[0]
+            self.A = np.diag(a)
+            self.c[1] = self.c[0]
+            self.w[:2] = 0.0
+            self.R, _ = np.linalg.qr(rng.standard_normal((dim, dim)))
+
+    def degenerate_point(self, rng, rel_gap: float = 0.0):
+        """A position at which the Hessian has a (nearly, for rel_gap > 0) repeated eigenvalue (linear == "degenerate")."""
+        x = rng.standard_normal(self.dim) * 0.8
+        x[0] = float(rng.choice([-1, 1]) * rng.uniform(0.4, 1.2))
+        x[1] = float(rng.choice([-1, 1])) * x[0] * (1.0 + rel_gap)
+        return self.R.T @ x
+
+    def _x(self, q):
+        return np.asarray(q, dtype=float) if self.R is None else self.R @ np.asarray(q, dtype=float)
 
     def f(self, q):
-        s = self.w @ q
-        return 0.5 * q @ self.A @ q + np.sum(self.c * q**4) / 4 + self.kappa * (np.logaddexp(s, -s) - np.log(2))
+        x = self._x(q)
+        s = self.w @ x
+        return 0.5 * x @ self.A @ x + np.sum(self.c * x**4) / 4 + self.kappa * (np.logaddexp(s, -s) - np.log(2))
 
     def grad(self, q):
-        s = self.w @ q
-        return self.A @ q + self.c * q**3 + self.kappa * np.tanh(s) * self.w
+        x = self._x(q)
+        s = self.w @ x
+        g = self.A @ x + self.c * x**3 + self.kappa * np.tanh(s) * self.w
+        return g if self.R is None else self.R.T @ g
 
     def hess(self, q):
-        s = self.w @ q
-        return self.A + np.diag(3 * self.c * q**2) + self.kappa / np.cosh(s) ** 2 * np.outer(self.w, self.w)
+        x = self._x(q)
+        s = self.w @ x
+        h = self.A + np.diag(3 * self.c * x**2) + self.kappa / np.cosh(s) ** 2 * np.outer(self.w, self.w)
+        return h if self.R is None else self.R.T @ h @ self.R
 
     def mtp(self, q):
-        q = np.array(q, dtype=float, copy=True)  # a well-behaved user closure does not keep a reference to its argument
-        s = self.w @ q
+        x = np.array(self._x(q), dtype=float, copy=True)  # a well-behaved user closure does not keep a reference to its argument
+        s = self.w @ x
         k3 = -2 * self.kappa * np.tanh(s) / np.cosh(s) ** 2
+        rot = self.R
 
         def mtp(m):
-            return 6 * self.c * q * np.diag(m) + k3 * (self.w @ m @ self.w) * self.w
+            if rot is not None:
+                m = rot @ m @ rot.T
+            v = 6 * self.c * x * np.diag(m) + k3 * (self.w @ m @ self.w) * self.w
+            return v if rot is None else rot.T @ v
 
         return mtp
 
